@@ -152,6 +152,13 @@ func (m *ModStream) CloseSend() {
 // Abort makes the server's Recv fail with err (cancellation / transport failure).
 func (m *ModStream) Abort(err error) {
 	m.cancel()
+	// as with gRPC, a stream whose RPC was cancelled / whose transport failed takes no more
+	// messages from the server either
+	m.mu.Lock()
+	if m.sendErr == nil {
+		m.sendErr = err
+	}
+	m.mu.Unlock()
 	select {
 	case m.recvErr <- err:
 	default:
